@@ -655,6 +655,9 @@ class Interp:
     # -------------------------------------------------------------- attribute access
     def getattr(self, ctx: Ctx, v: V, name: str) -> V:
         v = force(ctx, v)
+        if name == "__class__" and not isinstance(v, (VModule, VExternal, VClass, VFunc, VBuiltin)):
+            # for every value this interpreter models, obj.__class__ is type(obj) (no class here overrides __class__)
+            return self.type_of(ctx, v)
         if isinstance(v, VModule):
             ns = self.world.namespaces.get(v.name, {})
             if name in ns:
@@ -762,6 +765,9 @@ class Interp:
             if v.cls in self.world.classes:
                 return VClass(v.cls, self.world.class_id(v.cls))
             self.world.declare_global("(declare-fun py_class_of (Int) Int)")
+            # an object of a class this world does not model is an instance of none of the modelled classes (isinstance_ answers the same):
+            # its class is none of theirs (ids 1000..) and no builtin kind (small tags)
+            ctx.assume(smt.Ge(f"(py_class_of {v.oid})", smt.sint(100000)))
             return VClass(None, f"(py_class_of {v.oid})")
         names = {"none": "NoneType", "bool": "bool", "int": "int", "float": "float", "str": "str", "tuple": "tuple", "list": "list", "notimpl": "NotImplementedType"}
         if v.kind in names:
